@@ -630,6 +630,29 @@ func modeOracle(ctx *common.Ctx, r *common.Rand) {
 	}
 	count := func(kind string) { orc.Cases++; distinct++; orc.Distribution[kind]++ }
 
+	// ---- deep nesting: whatever the plain reader accepts, --stream accepts too and emits
+	//      tostream's events (the decoder's nesting limit is 10000; the token reader has none)
+	for _, d := range []int{1, 2, 3, 64, 1000, 4999, 5000, 9998, 9999, 10000} {
+		for _, shape := range []string{"[", "{"} {
+			text := strings.Repeat("[", d) + strings.Repeat("]", d) + "\n"
+			if shape == "{" {
+				text = strings.Repeat("{\"a\":", d-1) + "{}" + strings.Repeat("}", d-1) + "\n"
+			}
+			_, _, code0, _ := runCmd([]string{"-c", "length"}, text)
+			if code0 != 0 {
+				continue // the plain reader rejects it: outside the claim
+			}
+			// (the events of a document nested d levels take O(d²) bytes: compare event count, the
+			// length of every event and of every path instead of the text)
+			a, _, codeA, _ := runCmd([]string{"-c", "--stream", "[length, (.[0] | length)]"}, text)
+			b, _, codeB, _ := runCmd([]string{"-c", "tostream | [length, (.[0] | length)]"}, text)
+			count("deep nesting: --stream = tostream")
+			if a != b || codeA != codeB {
+				viol("stream-deep", fmt.Sprintf("%s×%d", shape, d), fmt.Sprintf("a document nested %d levels (%s): --stream gives status %d and %d bytes, tostream status %d and %d bytes", d, shape, codeA, len(a), codeB, len(b)),
+					map[string]any{"depth": d, "shape": shape, "stream_status": codeA, "tostream_status": codeB, "cmd": fmt.Sprintf("python3 -c 'print(\"[\"*%d+\"]\"*%d)' | gojq -c --stream \"[length, (.[0] | length)]\"   # vs: gojq -c \"tostream | [length, (.[0] | length)]\"", d, d)})
+			}
+		}
+	}
 	// ---- --stream through the command
 	for i := 0; i < ctx.N(600, 10000); i++ {
 		docs := randDocs(r, 3, false)
